@@ -161,7 +161,7 @@ func raceReport(log string) (first string, frames []string) {
 	for _, ln := range strings.Split(rep, "\n") {
 		ln = strings.TrimSpace(ln)
 		if strings.HasPrefix(ln, "worldcoin/gnark-mbu/") || strings.HasPrefix(ln, "github.com/") {
-			if k := strings.IndexByte(ln, '('); k > 0 {
+			if k := strings.LastIndexByte(ln, '('); k > 0 {
 				ln = ln[:k]
 			}
 			frames = append(frames, ln)
